@@ -70,8 +70,10 @@ def sweep_paths(tier, seed):
 def check_keep(inp):
   with tempfile.TemporaryDirectory() as root:
     have = set()
-    for r, keep in inp['saves']:
-      checkpoint.save_checkpoint(root, {'r': r}, r, keep)
+    content = {}
+    for i, (r, keep) in enumerate(inp['saves']):
+      checkpoint.save_checkpoint(root, {'r': r, 'save_no': i}, r, keep)
+      content[r] = i
       have.add(r)
       want = sorted(have)[-keep:]
       have = set(want)
@@ -79,7 +81,13 @@ def check_keep(inp):
              if n.startswith('checkpoint_') and n[len('checkpoint_'):].isdigit()
              and len(n) == len('checkpoint_') + 8]
       if got != want:
-        return f'after save_checkpoint(round={r}, keep={keep}) retained {got}, expected {want}'
+        return (f'after save_checkpoint(round={r}, keep={keep}) (saves so far {inp["saves"][:i + 1]}) retained {got}, '
+                f'expected {want}')
+      latest = checkpoint.load_latest_checkpoint(root)
+      if latest is None or latest[1] != want[-1] or int(latest[0]['r']) != want[-1] or \
+          int(latest[0]['save_no']) != content[want[-1]]:
+        return (f'after saves {inp["saves"][:i + 1]} load_latest_checkpoint returns {latest}; expected round {want[-1]} with the '
+                f'state of save number {content[want[-1]]} (a checkpointed state loads back equal to the saved one)')
       msg = loadable_invariant(root)
       if msg:
         return msg
@@ -91,6 +99,10 @@ def sweep_keep(tier, seed):
   yield dict(saves=[[9, 3], [10, 3], [11, 3], [100, 3], [101, 2], [102, 1]])
   yield dict(saves=[[5, 1], [3, 1]])
   yield dict(saves=[[1, 5], [2, 5], [3, 1]])
+  # the same round saved again (re-run of an interrupted round; default round_num=0): overwritten, retained, loadable
+  yield dict(saves=[[0, 1], [0, 1]])
+  yield dict(saves=[[2, 2], [2, 2], [3, 2], [3, 2]])
+  yield dict(saves=[[1, 3], [2, 3], [1, 3], [2, 1]])
 
 
 def check_crash(inp):
@@ -247,6 +259,31 @@ def check_resume(inp):
               raise Crash('crash in the middle of a checkpoint write')
             return real_dump(obj, f, *a, **k)
           serialization.pickle.dump = torn
+        elif kind == 'tsv':
+          # crash in the middle of writing the final-evaluation output (after `arg` - 1 complete write() calls)
+          real_gfile = tf.io.gfile.GFile
+
+          class TornFile:
+            def __init__(self, path, mode='r'):
+              self.f, self.torn, self.n = real_gfile(path, mode), path.endswith('.tsv') and 'w' in mode, 0
+
+            def __enter__(self):
+              self.f.__enter__()
+              return self
+
+            def __exit__(self, *a):
+              return self.f.__exit__(*a)
+
+            def write(self, data):
+              self.n += 1
+              if self.torn and self.n == arg:
+                self.f.flush()
+                raise Crash('crash while the final evaluation output is being written')
+              return self.f.write(data)
+
+            def __getattr__(self, name):
+              return getattr(self.f, name)
+          tf.io.gfile.GFile = TornFile
         elif kind == 'final':
           orig = Stamp.__call__
 
@@ -266,6 +303,8 @@ def check_resume(inp):
       finally:
         tf.io.gfile.remove = real_remove
         serialization.pickle.dump = real_dump
+        if kind == 'tsv':
+          tf.io.gfile.GFile = real_gfile
         calls['crash_at'] = None
       msg = loadable_invariant(root)
       if msg:
@@ -302,6 +341,8 @@ def sweep_resume(tier, seed):
     yield dict(num_rounds=n, ckpt_freq=cf, keep=keep, crashes=[['write', 2], ['apply', 1]])
     yield dict(num_rounds=n, ckpt_freq=cf, keep=keep, crashes=[['remove', 1]])
     yield dict(num_rounds=n, ckpt_freq=cf, keep=keep, crashes=[['final', 1]])
+    yield dict(num_rounds=n, ckpt_freq=cf, keep=keep, crashes=[['tsv', 1]])
+    yield dict(num_rounds=n, ckpt_freq=cf, keep=keep, crashes=[['tsv', 2]])
     yield dict(num_rounds=n, ckpt_freq=cf, keep=keep, crashes=[['apply', 2], ['apply', 1], ['final', 1]])
 
 
